@@ -76,3 +76,31 @@ Definition copy_root (resolved : option node) (user_map : option (node -> option
                            | None => sel r
                            | Some f => match f r with Some r' => sel r' | None => None end
                            end)).
+
+(* What Copy's prologue reads from the source, and what it leaves in the proxy cache.
+   resolveRoot through a ReferenceFetcher opens the resolved root once; the content stays in the cache
+   iff it was read to the end: a manifest (content.Successors decodes it) or an empty blob.
+   WithTargetPlatform (platform.SelectManifest, with caching stopped): on a manifest list it reads the
+   list; on an image manifest it reads the manifest and then its config blob -- the latter only when
+   the config has the image-config media type (otherwise ErrUnsupported before the read); on any other
+   node it fails without reading. *)
+Inductive plat_target :=
+| PTNone                          (* no target platform *)
+| PTList                          (* the mapped root is a manifest list *)
+| PTImage (cfgblob : node) (cfg_type_ok : bool)   (* the mapped root is an image manifest *)
+| PTOther.                        (* neither: unsupported *)
+
+Definition cache_after_resolve (reffetch root0_is_manifest root0_is_empty : bool) (root0 : node) : list node :=
+  if reffetch && (root0_is_manifest || root0_is_empty) then [root0] else [].
+
+(* platform selection reads through proxy.FetchCached: what resolveRoot left in the cache is not read
+   from the source again *)
+Definition prologue_fetches (reffetch : bool) (root0 mapped : node) (pt : plat_target)
+           (cache : list node) : list node :=
+  (if reffetch then [root0] else []) ++
+  filter (fun x => negb (memb x cache))
+    match pt with
+    | PTNone | PTOther => []
+    | PTList => [mapped]
+    | PTImage cfgblob ok => if ok then [mapped; cfgblob] else [mapped]
+    end.
